@@ -654,6 +654,9 @@ pub fn predict(w: &World, forest: &[A], op: &Op) -> Option<Prediction> {
             done(m)
         }
         Parse(i) => {
+            if *i as usize >= PARSE_TEXTS_WELL_FORMED {
+                return None; // ill-formed text: the call has to be refused, there is nothing to predict
+            }
             m.forest.push(parse_expect(*i));
             done(m)
         }
